@@ -268,6 +268,7 @@ func (b *backend) notify(ctx context.Context,
 	key []byte, val []byte, revision, preRevision uint64, valid bool, eventType proto.Event_EventType, err error) {
 	if revision == 0 {
 		b.metricCli.EmitCounter("watch.event.buffer.invalid", 1)
+		verifPoint(b, "notify.dropped", 0)
 		// todo: panic or not ?
 		return
 	}
@@ -289,5 +290,6 @@ func (b *backend) notify(ctx context.Context,
 		panic("watch push buffer full")
 	}
 	b.watchEventsRingBuffer[int64(revision)%watchersChanCapacity].Store(watchEvent)
+	verifPoint(b, "notify", revision)
 	b.metricCli.EmitGauge("watch.revision.lag", watchEvent.Revision-b.GetCurrentRevision())
 }
